@@ -152,7 +152,7 @@ def run(tier, seed):
         if k not in opml: continue
         ok, items, err = opml_items(opml[k])
         trace.append(dict(e="reset"))
-        trace.append(dict(e="outline", doc=d["doc"], src=d["src"], wellformed=ok, items=items, rt_null=rtnull.get(k, True), html_src=html.get(k, "?"), html_rt=rt.get(k, "??"), xmlerr=err))
+        trace.append(dict(e="outline", doc=d["doc"], src=d["src"], wellformed=ok, items=items, rt_null=rtnull.get(k, True), html_src=html.get(k, "?"), html_rt=rt.get(k, "??"), xmlerr=err, proper=d["proper"]))
     acc, rejected, states, info = tlc.validate_trace("OutlineTrace", os.path.join(VERIF, "spec", "OutlineTrace.cfg"), trace, max_rejects=30, timeout=1500, independent=True)
     chk.add("traces_validated_against_impl", len(dl) - len(rejected))
     chk.cov["evaluations"] = len(dl); chk.cov["distinct_nontrivial"] = len([d for d in dl if len(d["doc"]["secs"]) >= 2])
@@ -177,6 +177,11 @@ def run(tier, seed):
         if key in seen: seen[key] += 1; continue
         seen[key] = 1
         chk.report(key, "OPML of %r gave items %s (xml: %s); round trip html %s vs %s" % (ev["src"][:300], json.dumps(ev["items"])[:500], ev["xmlerr"], ev["html_rt"], ev["html_src"]), dict(src=ev["src"], items=ev["items"]))
+    rej_ids = {id(seg[idx]) for seg, idx in rejected}
+    for ev in trace:
+        # events accepted through the named deviation SetextHashTitle of OutlineTrace
+        if ev.get("e") == "outline" and id(ev) not in rej_ids and ev["html_rt"] != ev["html_src"] and ev["doc"] and any(s_["t"] == 6 and s_["style"] == "setext" for s_ in ev["doc"]["secs"]) and ev.get("proper", True):
+            chk.report("roundtrip-renders-differently:setext-title-ending-in-hash", "OPML of %r: round trip html %s vs %s" % (ev["src"][:300], ev["html_rt"], ev["html_src"]), dict(src=ev["src"]))
     for kind, a, b in problems:
         k, f = san_signature(b.get("san", "")); key = "%s:%s:%s" % (b["status"], k, f)
         if key in seen: seen[key] += 1; continue
